@@ -3,10 +3,12 @@
   text arguments hex-encoded), one canonical result line out.
 -/
 import YangVerif.Drv.C17
+import YangVerif.Drv.C10
 
 def dispatch (line : String) : String :=
   match (line.trimAscii.toString.splitOn " ").filter (· ≠ "") with
   | "c17" :: rest => YangVerif.Drv.C17.handle rest
+  | "c10" :: rest => YangVerif.Drv.C10.handle rest
   | _ => "bad-op"
 
 partial def loop (h : IO.FS.Stream) (out : IO.FS.Stream) : IO Unit := do
